@@ -101,7 +101,7 @@ Proof. unfold ge_get. rewrite es_mem_find. destruct (es_find k l); reflexivity. 
 
 (* the duplicate test: for _, oes := range m.pmt.ElementaryStreams { if oes.ElementaryPID == es.ElementaryPID { return .. } } *)
 Lemma add_loop1_is_model l : forall es escs np pmt pb upd rm,
-  Muxer_AddElementaryStream_loop1 ge_get ge_set gr_del gr_get l es escs np pmt pb upd rm =
+  Muxer_AddElementaryStream_loop1 ge_get ge_set gr_del gr_get l pmt upd np pb escs rm es =
   if stream_pid_in (PMTElementaryStream_ElementaryPID es) l
   then inl (Some (pmt, upd, np, pb, escs, rm, EErrPIDAlreadyExists)) else inr tt.
 Proof.
@@ -113,7 +113,7 @@ Qed.
 
 (* the PID search: for _, ok := m.esContexts[nextPID]; ok || nextPID == pmtStartPID; _, ok = .. { nextPID++ } *)
 Lemma add_loop2_is_model fuel : forall es escs n pmt pb upd rm,
-  Muxer_AddElementaryStream_loop2 ge_get ge_set gr_del gr_get fuel es escs n pmt pb upd rm (es_mem n escs) =
+  Muxer_AddElementaryStream_loop2 ge_get ge_set gr_del gr_get fuel pmt upd n pb escs rm es (es_mem n escs) =
   match next_free_pid fuel escs n with
   | None => inl None
   | Some p => inr (p, es_mem p escs)
@@ -235,7 +235,7 @@ Qed.
 
 (* for i, oes := range m.pmt.ElementaryStreams { if oes.ElementaryPID == pid { foundIdx = i; break } } *)
 Lemma remove_loop1_is_model l : forall i found escs pmt pb upd rm pid,
-  Muxer_RemoveElementaryStream_loop1 ge_del ge_get gr_set l i found escs pmt pb upd rm pid =
+  Muxer_RemoveElementaryStream_loop1 ge_del ge_get gr_set l i pmt upd pb escs rm pid found =
   inr (match pid_index pid l with Some j => i + j | None => found end).
 Proof.
   induction l as [|e r IH]; intros; [reflexivity|].
@@ -311,7 +311,7 @@ Definition opts_period (opts : list MuxerOpt) (d : Z) : Z := fold_left (fun p o 
 
 Lemma new_loop_is_model (W : Type) l : forall (buf : list Z) (escs : list (Z * esctx)) np ps pb patcc patv (pm : gpm) pmu pmt mb pmtcc
     pmtu pmtv (rm : list (Z * wrappingCounter)) cnt period (mw : W) opts (w : W),
-  NewMuxer_loop1 [] [] [] gpm_set l buf escs np ps pb patcc patv pm pmu pmt mb pmtcc pmtu pmtv rm cnt period mw opts w =
+  NewMuxer_loop1 [] [] [] gpm_set l mw ps period pm pmu pmt pmtu np patv pmtv patcc pmtcc pb mb buf escs cnt rm w opts =
   inr (opts_period l period).
 Proof.
   induction l as [|o r IH]; intros; [reflexivity|].
@@ -418,7 +418,7 @@ Variables (buf : list Z) (ps : Z) (pmt : PMTData) (mb : list Z) (cc : wrappingCo
 
 (* for _, es := range m.pmt.ElementaryStreams { if es.ElementaryPID == m.pmt.PCRPID { hasPCRPID = true; break } } *)
 Lemma pmt_loop1_is_model l : forall h,
-  Muxer_generatePMT_loop1 calc_descriptor_length calc_pmt_section_length g_wpsi g_wpkt l h buf ps pmt mb cc upd ver =
+  Muxer_generatePMT_loop1 calc_descriptor_length calc_pmt_section_length g_wpsi g_wpkt l ps pmt upd ver cc mb buf h =
   inr (if stream_pid_in (PMTData_PCRPID pmt) l then true else h).
 Proof.
   induction l as [|e r IH]; intros; [reflexivity|].
@@ -429,17 +429,17 @@ Proof.
 Qed.
 
 Lemma pmt_loop2_is_model l : forall h size,
-  Muxer_generatePMT_loop2 calc_descriptor_length calc_pmt_section_length g_wpsi g_wpkt l h buf ps pmt mb cc upd ver size =
+  Muxer_generatePMT_loop2 calc_descriptor_length calc_pmt_section_length g_wpsi g_wpkt l ps pmt upd ver cc mb buf h size =
   inr (fold_left (fun k d => k + (2 + calc_descriptor_length d)) l size).
 Proof. induction l as [|d r IH]; intros; [reflexivity|]. cbn [Muxer_generatePMT_loop2 fold_left]. apply IH. Qed.
 
 Lemma pmt_loop4_is_model l : forall es h size,
-  Muxer_generatePMT_loop4 calc_descriptor_length calc_pmt_section_length g_wpsi g_wpkt l es h buf ps pmt mb cc upd ver size =
+  Muxer_generatePMT_loop4 calc_descriptor_length calc_pmt_section_length g_wpsi g_wpkt l ps pmt upd ver cc mb buf h size es =
   inr (fold_left (fun k d => k + (2 + calc_descriptor_length d)) l size).
 Proof. induction l as [|d r IH]; intros; [reflexivity|]. cbn [Muxer_generatePMT_loop4 fold_left]. apply IH. Qed.
 
 Lemma pmt_loop3_is_model l : forall h size,
-  Muxer_generatePMT_loop3 calc_descriptor_length calc_pmt_section_length g_wpsi g_wpkt l h buf ps pmt mb cc upd ver size =
+  Muxer_generatePMT_loop3 calc_descriptor_length calc_pmt_section_length g_wpsi g_wpkt l ps pmt upd ver cc mb buf h size =
   inr (fold_left (fun n es => fold_left (fun k d => k + (2 + calc_descriptor_length d))
                                         (PMTElementaryStream_ElementaryStreamDescriptors es) (n + 5)) l size).
 Proof.
@@ -601,11 +601,12 @@ Definition wd_ret (s : mstate)
   let '(w, pmu, pmtu, patv, pmtv, patcc, pmtcc, _, _, _, cnt, n, e) := r in
   (set_retransmit (set_tables s patv pmtv patcc pmtcc pmu pmtu) cnt, mk_mout (terr_res e) n (groups_of w)).
 
-(* rest_: the model's remainder, started from the fields and locals the translated part hands over *)
-Definition wd_rest_gen (s : mstate) (bytesWritten : Z) (ctx : esContext) (d : MuxerData) (err : merror) (force : bool)
-    (buf : list Z) (escs : list (Z * esctx)) (ps : Z) (pbytes : list Z) (patcc patv : wrappingCounter) (pm : gpm)
-    (pmu : bool) (pmt : PMTData) (mbytes : list Z) (pmtcc : wrappingCounter) (pmtu : bool) (pmtv : wrappingCounter)
-    (cnt period : Z) (w : gw) (n : Z) (ok : bool) (pbw : Z) (pstart waf : bool) : mstate * mout :=
+(* rest_: the model's remainder, started from the fields and locals the translated part hands over (the fields in the
+   order of the struct, then the parameter and the locals in the order of their declarations in WriteData) *)
+Definition wd_rest_gen (s : mstate) (w : gw) (ps period : Z) (pm : gpm) (pmu : bool) (pmt : PMTData) (pmtu : bool)
+    (patv pmtv patcc pmtcc : wrappingCounter) (pbytes mbytes buf : list Z) (escs : list (Z * esctx)) (cnt : Z)
+    (d : MuxerData) (ctx : esContext) (ok : bool) (bytesWritten : Z) (force : bool) (n : Z) (err : merror)
+    (pstart waf : bool) (pbw : Z) : mstate * mout :=
   let s1 := set_retransmit (set_tables s patv pmtv patcc pmtcc pmu pmtu) cnt in
   let '(s', p) := wd_rest s1 (mk_part (Ok tt) bytesWritten (groups_of w) []) (ctx_mod ctx) d in
   (s', mout_of_part p).
